@@ -5,7 +5,7 @@ import vlib.env  # noqa: F401
 from vlib import stats
 from vlib.env import part
 from vlib.known import allowed, pick as pick_dev
-from vlib.sim import (new_loop, Pipe, provider, Rec, RecPub, generic_dev, conc, concb, grammar_dev, terminals)
+from vlib.sim import (new_loop, Pipe, SimTransport, provider, Rec, RecPub, generic_dev, conc, concb, grammar_dev, terminals)
 
 from rsocket.exceptions import RSocketProtocolError, RSocketTransportError
 from rsocket.frame import (serialize_with_frame_size_header, KeepAliveFrame, parse_or_ignore, SetupFrame)
@@ -215,6 +215,100 @@ def c_cut(c: int, mode: int, settle_ms: int) -> str:
         if ROLE == 'client':
             loop.create_task(ep.close())
             loop.run_ready()
+    return pick_dev(devs, ALLOWED)
+
+
+SRC = part('src', 'gen')                   # library stream source of c_loss_library_sources
+MSRC = 6
+
+
+def c_loss_library_sources(when: int, mode: int, chan: bool) -> str:
+    """
+    A responder whose publisher is one of the library's own stream sources (SRC: generator / async generator /
+    reactivex / Rx observable) over MSRC elements, requested by REQUEST_STREAM or REQUEST_CHANNEL (chan) with a large
+    initial request-n: the connection is lost (mode 0 orderly EOF, 1 transport error) `when` = 0: in the same read
+    as the request, before the publisher's feeder tasks took a step; 1: one loop iteration later; 2: after two
+    elements were emitted on credit 2.  Cancelled means it stops producing: after the close notification the source
+    is not pulled any further, nothing is written, no stream is left, on_close was delivered exactly once.
+
+    pre: 0 <= when <= 2 and 0 <= mode <= 1
+    post: _ in ALLOWED
+    """
+    from harness.c06_credit import _publisher
+    from rsocket.streams.stream_from_async_generator import StreamFromAsyncGenerator
+    from rsocket.streams.stream_from_generator import StreamFromGenerator
+    when = conc(when, 0, 2)
+    mode = conc(mode, 0, 1)
+    chan = concb(chan)
+    pulled = []
+    closed = []
+
+    def source():
+        if SRC in ('gen', 'agen'):
+            def gen():
+                for i in range(MSRC):
+                    pulled.append(i)
+                    yield Payload(bytes([65 + i])), False
+            if SRC == 'gen':
+                return StreamFromGenerator(gen)
+
+            async def agen():
+                for i in range(MSRC):
+                    pulled.append(i)
+                    yield Payload(bytes([65 + i])), False
+            return StreamFromAsyncGenerator(agen)
+        return _publisher(SRC, MSRC, False, pulled)      # back-pressure factories record what they were asked for
+
+    class H(BaseRequestHandler):
+        async def request_stream(self, payload):
+            return source()
+
+        async def request_channel(self, payload):
+            return source(), Rec()
+
+        async def on_close(self, rsocket, exception=None):
+            closed.append(len(pulled))
+
+    loop = new_loop()
+    with loop:
+        t = SimTransport(loop)
+        s = RSocketServer(t, handler_factory=H)
+        loop.run_ready()
+        n0 = 2 if when == 2 else 1000
+        if chan:
+            t.feed_wire(to_request_channel_frame(1, Payload(b'q'), initial_request_n=n0))
+        else:
+            t.feed_wire(to_request_stream_frame(1, Payload(b'q'), initial_request_n=n0))
+        if when == 1:
+            loop.run_iteration()
+        elif when == 2:
+            loop.run_ready()
+        if mode == 0:
+            t.eof()
+        else:
+            t.fail()
+        loop.run_ready()
+        written = len(t.sent)
+        pulled_then = len(pulled)
+        loop.advance_us(3000000)
+        if when == 2:
+            t.feed_wire(to_request_n_frame(1, 3))
+            loop.run_ready()
+        devs = []
+        if len(closed) != 1:
+            devs.append('C11:on_close-delivered-%d-times' % len(closed))
+        elif len(pulled) != closed[0] or len(pulled) != pulled_then:
+            devs.append('C11:library-publisher-still-producing-after-connection-loss:' + SRC)
+        if when == 0 and SRC in ('gen', 'agen') and pulled:
+            devs.append('C11:library-publisher-started-although-connection-was-lost-with-the-request:' + SRC)
+        if len(t.sent) != written:
+            devs.append('C11:frame-written-after-connection-ended')
+        if s._stream_control._streams:
+            devs.append('C11:streams-left-registered')
+        d = generic_dev(loop, s, expect_closed=True)
+        if d:
+            devs.append('C11:' + d)
+        stats.note(True, {'src': SRC, 'when': when, 'mode': mode, 'chan': chan, 'pulled': len(pulled)})
     return pick_dev(devs, ALLOWED)
 
 
